@@ -128,8 +128,8 @@ other operation is a nil dereference): `c02_readonly_agrees` covers exactly the 
 function lets through. -/
 theorem c02_isReadonly_shape_matches_source :
     Regatta.Extracted.isReadonlyShape =
-      ["range req.Success", "only *RequestOp_RequestRange", "return false",
-       "range req.Failure", "only *RequestOp_RequestRange", "return false", "return true"] := by
+      ["range x1.Success", "only *RequestOp_RequestRange", "return false",
+       "range x1.Failure", "only *RequestOp_RequestRange", "return false", "return true"] := by
   decide
 
 end Regatta.Props.C02
